@@ -271,6 +271,8 @@ pub struct FrontendCtx<'a, R: FileManager> {
     /// `declare const x: { a: typeof x }`) would never end
     typing_values: Vec<ModuleItemAddress>,
     typing_exprs: Vec<(usize, bool)>,
+    /// named unions a conditional type is being distributed over (type A = B | "x"; type B = A | "y")
+    distributing_over: Vec<RuntypeUUID>,
 }
 
 #[derive(Debug)]
@@ -1155,6 +1157,7 @@ impl<'a, R: FileManager> FrontendCtx<'a, R> {
             resolving_items: vec![],
             typing_values: vec![],
             typing_exprs: vec![],
+            distributing_over: vec![],
         }
     }
 
@@ -3125,6 +3128,17 @@ impl<'a, R: FileManager> FrontendCtx<'a, R> {
         schema: &Runtype,
         file_name: BffFileName,
     ) -> Res<TplLitTypeItem> {
+        self.runtype_to_tpl_lit_following(span, schema, file_name, &mut vec![])
+    }
+
+    /// `following`: the names whose definition is being walked (type A = A | "x" reaches itself)
+    fn runtype_to_tpl_lit_following(
+        &mut self,
+        span: &Span,
+        schema: &Runtype,
+        file_name: BffFileName,
+        following: &mut Vec<RuntypeUUID>,
+    ) -> Res<TplLitTypeItem> {
         let anchor = Anchor {
             f: file_name.clone(),
             s: *span,
@@ -3140,15 +3154,35 @@ impl<'a, R: FileManager> FrontendCtx<'a, R> {
                     if matches!(v.kind, RuntypeKind::Never) {
                         continue;
                     }
-                    let item = self.runtype_to_tpl_lit(span, v, file_name.clone())?;
+                    // a member that leads back to a name being walked adds nothing to the union
+                    if let RuntypeKind::Ref(n) = &v.kind
+                        && following.contains(n)
+                    {
+                        continue;
+                    }
+                    let item =
+                        self.runtype_to_tpl_lit_following(span, v, file_name.clone(), following)?;
                     acc.push(item);
                 }
                 Ok(TplLitTypeItem::one_of(acc))
             }
             RuntypeKind::Ref(name) => {
+                if following.contains(name) {
+                    return self.error(&anchor, DiagnosticInfoMessage::CannotResolveRefToTplLit);
+                }
                 let v = self.resolve_alias(name);
                 match v {
-                    Some(v) => self.runtype_to_tpl_lit(span, &v, file_name.clone()),
+                    Some(v) => {
+                        following.push(name.clone());
+                        let res = self.runtype_to_tpl_lit_following(
+                            span,
+                            &v,
+                            file_name.clone(),
+                            following,
+                        );
+                        following.pop();
+                        res
+                    }
                     None => self.error(&anchor, DiagnosticInfoMessage::CannotResolveRefToTplLit),
                 }
             }
@@ -3579,7 +3613,14 @@ impl<'a, R: FileManager> FrontendCtx<'a, R> {
             RuntypeKind::Never => Some(vec![]),
             RuntypeKind::Ref(r) => match self.resolve_alias(r) {
                 Some(def) if matches!(def.kind, RuntypeKind::AnyOf(_) | RuntypeKind::Boolean) => {
-                    self.members_to_distribute_over(&def)
+                    // (type A = A | "x": the member that names the union itself adds nothing and
+                    // would be distributed over without end)
+                    self.members_to_distribute_over(&def).map(|members| {
+                        members
+                            .into_iter()
+                            .filter(|m| !matches!(&m.kind, RuntypeKind::Ref(n) if n == r))
+                            .collect()
+                    })
                 }
                 _ => None,
             },
@@ -3611,17 +3652,43 @@ impl<'a, R: FileManager> FrontendCtx<'a, R> {
                 .rev()
                 .find(|(n, _)| id.sym == *n)
                 .cloned()
+            && !matches!(&bound.kind, RuntypeKind::Ref(r) if self.distributing_over.contains(r))
             && let Some(members) = self.members_to_distribute_over(&bound)
         {
             let mut out = vec![];
+            let named = match &bound.kind {
+                RuntypeKind::Ref(r) => Some(r.clone()),
+                _ => None,
+            };
+            if let Some(r) = &named {
+                self.distributing_over.push(r.clone());
+            }
+            let mut failed = None;
             for m in &members {
+                // a member that names a union already being distributed over adds nothing
+                if matches!(&m.kind, RuntypeKind::Ref(n) if self.distributing_over.contains(n)) {
+                    continue;
+                }
                 self.type_application_stack.push((name.clone(), m.clone()));
                 let r = self.convert_conditional_type(t, file_name.clone());
                 self.type_application_stack.pop();
-                let r = r?;
-                if !matches!(r.kind, RuntypeKind::Never) {
-                    out.push(r);
+                match r {
+                    Ok(r) => {
+                        if !matches!(r.kind, RuntypeKind::Never) {
+                            out.push(r);
+                        }
+                    }
+                    Err(e) => {
+                        failed = Some(e);
+                        break;
+                    }
                 }
+            }
+            if named.is_some() {
+                self.distributing_over.pop();
+            }
+            if let Some(e) = failed {
+                return Err(e);
             }
             return Ok(match out.len() {
                 0 => Runtype::never(),
